@@ -10,6 +10,7 @@
 import PtModel.Sexp
 import PtModel.Mapper
 import PtModel.Analysis
+import PtModel.Denote
 namespace Pt
 
 def parseNode : Sx → Option NodeData
@@ -139,6 +140,32 @@ def handleMapper : List Sx → Option String
       | none => []
     let reused := (res.filter (· < h.size)).length
     some s!"{st.heap.size} {showOptNat (st.image r)} {res.length} {reused} ({" ".intercalate img})"
+  -- C05: structural checkers on the combined heap (input + output graph of a REAL
+  -- transformation, objects numbered by id)
+  | [.atom "unfoldeq", hp, i, j] => do
+    -- do nodes i and j unfold to the same tree?
+    let h ← parseHeap hp
+    let can := canon false h
+    let a ← i.asNat?
+    let b ← j.asNat?
+    some (if can.getD a a == can.getD b b then "#t" else "#f")
+  | [.atom "sametags", hp, i, j] => do
+    -- … to the same tree up to (node) tags?
+    let h ← parseHeap hp
+    let can := canon true h
+    let a ← i.asNat?
+    let b ← j.asNat?
+    some (if can.getD a a == can.getD b b then "#t" else "#f")
+  | [.atom "canon", hp, .atom ign] => do
+    let h ← parseHeap hp
+    some (showIds (canon (ign == "#t") h).toList)
+  | [.atom "dupfree", hp, root] => do
+    let h ← parseHeap hp
+    match dupPair h (← root.asNat?) with
+    | none => some "#t"
+    | some (a, b) => some s!"#f {a} {b}"
+  | [.atom "extends", ha, hb] => do
+    some (if extendsHeap (← parseHeap ha) (← parseHeap hb) then "#t" else "#f")
   | _ => none
 
 end Pt
